@@ -1,4 +1,5 @@
 import NitroVerif.Lemmas.Paths
+import NitroVerif.Lemmas.PathsText
 /-!
 # C20 — relative and resolved paths are mutually inverse and land on the intended file
 
@@ -130,6 +131,115 @@ theorem climb_needed_counterexample :
 /-- non-vacuity: a concrete pair with `.` and `..` segments meets the hypotheses -/
 example : AbsNoClimb [.root, .normal "p", .parent, .normal "q", .cur, .normal "f.graphql"] ∧
     AbsNoClimb [.root, .normal "q", .normal "sub", .parent, .parent, .normal "g.graphql"] :=
+  ⟨⟨_, rfl, by decide⟩, ⟨_, rfl, by decide⟩⟩
+
+/-! ### text level: rendering a path the model produces and splitting it again gives the same components -/
+
+/-- absolute results (`normalize_path`, `resolve_relative_path`): "/" ++ segments joined by "/" -/
+theorem components_render_abs (ns : P) (h : GoodNormals ns) :
+    componentsL (renderL (.root :: ns)) = .root :: ns := by
+  cases ns with
+  | nil => simp [renderL, componentsL, splitSlash, splitSlashGo_cons_slash, splitSlashGo, segsToComps]
+  | cons c r =>
+    have hs := splitSlash_joinSlash ((c :: r).map compTextL) (by simp) (noSlash_compTextL_goodNormals _ h)
+    have : renderL (.root :: c :: r) = '/' :: joinSlash ((c :: r).map compTextL) := by simp [renderL]
+    rw [this]
+    unfold componentsL
+    simp only [List.head?_cons, if_true]
+    unfold splitSlash at *
+    rw [splitSlashGo_cons_slash, hs]
+    simp only [List.reverse_nil, segsToComps, if_true]
+    rw [segsToComps_goodNormals false _ h rfl]
+
+/-- relative results of `relative_path`: "." / "./segs" / "../../segs" -/
+theorem components_render_rel (k : Nat) (ns : P) (h : GoodNormals ns) :
+    componentsL (renderL (.cur :: ns)) = .cur :: ns ∧
+    componentsL (renderL (List.replicate (k + 1) Comp.parent ++ ns)) = List.replicate (k + 1) Comp.parent ++ ns := by
+  have hno : ∀ (pre : P), (∀ c ∈ pre, c = .cur ∨ c = .parent) → ∀ s ∈ (pre ++ ns).map compTextL, NoSlash s := by
+    intro pre hpre s hs
+    simp only [List.map_append, List.mem_append, List.mem_map] at hs
+    rcases hs with ⟨c, hc, rfl⟩ | ⟨c, hc, rfl⟩
+    · rcases hpre c hc with rfl | rfl <;> simp [compTextL, NoSlash]
+    · obtain ⟨t, rfl, _, hns, _⟩ := h c hc; exact hns
+  have hpar : ∀ (j : Nat), segsToComps false ((List.replicate j Comp.parent ++ ns).map compTextL) = List.replicate j Comp.parent ++ ns := by
+    intro j
+    induction j with
+    | zero => simpa using segsToComps_goodNormals false ns h rfl
+    | succ j ih =>
+      have e : (List.replicate (j + 1) Comp.parent ++ ns).map compTextL =
+          ['.', '.'] :: (List.replicate j Comp.parent ++ ns).map compTextL := by
+        simp [List.replicate_succ, compTextL]
+      rw [e]
+      have e2 : ∀ rest, segsToComps false (['.', '.'] :: rest) = Comp.parent :: segsToComps false rest := by
+        intro rest; simp [segsToComps]
+      rw [e2, ih]; simp [List.replicate_succ]
+  constructor
+  · have hs := splitSlash_joinSlash ((Comp.cur :: ns).map compTextL) (by simp)
+      (by simpa using hno [.cur] (by simp))
+    have hr : renderL (.cur :: ns) = joinSlash ((Comp.cur :: ns).map compTextL) := by
+      cases ns <;> simp [renderL]
+    have hhead : (joinSlash ((Comp.cur :: ns).map compTextL)).head? ≠ some '/' := by
+      cases ns <;> simp [joinSlash, compTextL]
+    rw [hr]; unfold componentsL; rw [if_neg hhead, hs]
+    simp only [List.map_cons, compTextL, segsToComps]
+    simp [segsToComps_goodNormals false ns h rfl]
+  · have hs := splitSlash_joinSlash ((List.replicate (k + 1) Comp.parent ++ ns).map compTextL) (by simp [List.replicate_succ])
+      (hno _ (by intro c hc; exact Or.inr (List.eq_of_mem_replicate hc)))
+    have hr : renderL (List.replicate (k + 1) Comp.parent ++ ns) = joinSlash ((List.replicate (k + 1) Comp.parent ++ ns).map compTextL) := by
+      simp only [List.replicate_succ, List.cons_append]
+      cases hrest : (List.replicate k Comp.parent ++ ns) <;> simp [renderL]
+    have hhead : (joinSlash ((List.replicate (k + 1) Comp.parent ++ ns).map compTextL)).head? ≠ some '/' := by
+      simp only [List.replicate_succ, List.cons_append, List.map_cons, compTextL]
+      cases hrest : ((List.replicate k Comp.parent ++ ns).map compTextL) <;> simp [joinSlash]
+    rw [hr]; unfold componentsL; rw [if_neg hhead, hs]
+    have := hpar (k + 1)
+    simp only [List.replicate_succ, List.cons_append, List.map_cons, compTextL, segsToComps] at this ⊢
+    simpa using this
+
+/-- String-level statement of the property: for path TEXTS `a`, `b` that are absolute and do not climb,
+    the text `relative_path` returns, read back as a path, resolves against `a` to `normalize b`;
+    and the text of the normalised path reads back as itself. -/
+theorem text_resolve_relative (a b : String)
+    (ha : AbsNoClimb (components a)) (hb : AbsNoClimb (components b)) :
+    ∃ r, relative (components a) (components b) = some r ∧
+      components (render r) = r ∧
+      resolve (components a) (components (render r)) = normalize (components b) ∧
+      components (render (normalize (components b))) = normalize (components b) := by
+  obtain ⟨fs, ts, k, comps, hfs, hts, hpop, eb, hk, htake, hcomps, hnr, hrel⟩ := relative_shape _ _ ha hb
+  obtain ⟨r, hr, hres⟩ := resolve_relative _ _ ha hb
+  have hgoodb : CompsGood (normalize (components b)) := fun c hc s hs =>
+    componentsL_good b.toList c (mem_normalize _ c hc) s hs
+  have hgts : GoodNormals ts := goodNormals_of ts hts (fun c hc s hs => hgoodb c (by rw [eb]; simp [hc]) s hs)
+  have hgdrop : GoodNormals (ts.drop k) := fun c hc => hgts c (List.mem_of_mem_drop hc)
+  have hnorm : components (render (normalize (components b))) = normalize (components b) := by
+    rw [eb]; simp only [components, render, String.toList_ofList]; exact components_render_abs ts hgts
+  have hround : components (render r) = r := by
+    rw [hrel] at hr; injection hr with hr; subst hr
+    simp only [components, render, String.toList_ofList]
+    rcases finish_cases comps hnr with ⟨e, tl, etl⟩ | e
+    · rw [e, hcomps]
+      have hpos : fs.length - k ≠ 0 := by
+        intro h0; rw [hcomps, h0] at etl; simp at etl
+        have := hgdrop Comp.parent (by rw [etl]; simp); obtain ⟨s, hs, _⟩ := this; cases hs
+      obtain ⟨j, hj⟩ := Nat.exists_eq_succ_of_ne_zero hpos
+      rw [hj]; exact (components_render_rel j _ hgdrop).2
+    · rw [e]
+      by_cases h0 : fs.length - k = 0
+      · rw [hcomps, h0]; simpa using (components_render_rel 0 _ hgdrop).1
+      · -- comps starts with a parent, so `finish` does not add "." — contradiction with e
+        exfalso
+        obtain ⟨j, hj⟩ := Nat.exists_eq_succ_of_ne_zero h0
+        rw [hcomps, hj, List.replicate_succ] at e
+        simp [finish, isRel] at e
+        have := foldl_push_noRootCur [] (Comp.parent :: (List.replicate j Comp.parent ++ ts.drop k))
+          (by rw [hcomps, hj, List.replicate_succ] at hnr; exact hnr)
+        simp at this
+        rw [this] at e
+        simp at e
+  exact ⟨r, hr, hround, by rw [hround]; exact hres, hnorm⟩
+
+/-- non-vacuity at the text level -/
+example : AbsNoClimb (components "/p/../q/./f.graphql") ∧ AbsNoClimb (components "/q//sub/../../g.graphql") :=
   ⟨⟨_, rfl, by decide⟩, ⟨_, rfl, by decide⟩⟩
 
 end NitroVerif.Paths
